@@ -47,9 +47,14 @@ type Resp struct {
 	Chunked   bool
 	ChunkSize int // default 1000
 	// Hold, when set, keeps the response open after the header and HoldAt
-	// entity bytes have been sent.
+	// entity bytes have been sent (HoldAt < 0: before anything is sent, the
+	// status line included).
 	Hold   *Hold
 	HoldAt int
+	// AfterHold: what happens when the hold is released: "" = the rest of the
+	// response is sent; "close" = the connection is closed (FIN) without the
+	// rest; "reset" = the connection is reset (RST).
+	AfterHold string
 }
 
 // Exchange is one logged request/response.
@@ -70,6 +75,7 @@ type Exchange struct {
 	Held       bool        `json:"held,omitempty"`
 	Sent       bool        `json:"sent"`              // the whole response was written to the socket without an error
 	Unknown    bool        `json:"unknown,omitempty"` // no route: answered 404
+	Aborted    string      `json:"aborted,omitempty"` // the origin cut the connection on purpose: "close" or "reset"
 }
 
 // Origin is a programmable site on a loopback address.
@@ -198,7 +204,8 @@ func (o *Origin) serve(w http.ResponseWriter, r *http.Request) {
 		wire += int64(n)
 		return err == nil
 	}
-	okAll := write(head)
+	okAll := true
+	headSent := false
 	sent := 0
 	body := resp.Entity
 	emit := func(part []byte) bool {
@@ -224,13 +231,16 @@ func (o *Origin) serve(w http.ResponseWriter, r *http.Request) {
 		}
 		return true
 	}
-	if resp.Hold != nil && okAll {
+	if resp.Hold != nil {
 		at := resp.HoldAt
 		if at > len(body) {
 			at = len(body)
 		}
-		okAll = emit(body[:at]) && bw.Flush() == nil
-		sent = at
+		if at >= 0 {
+			okAll = write(head) && emit(body[:at]) && bw.Flush() == nil
+			headSent = true
+			sent = at
+		}
 		o.mu.Lock()
 		ex.Held = true
 		o.mu.Unlock()
@@ -248,6 +258,19 @@ func (o *Origin) serve(w http.ResponseWriter, r *http.Request) {
 		case <-gone:
 			okAll = false
 		}
+		switch resp.AfterHold {
+		case "close", "reset":
+			if tc, ok := conn.(*net.TCPConn); ok && resp.AfterHold == "reset" {
+				tc.SetLinger(0)
+			}
+			o.mu.Lock()
+			ex.Sent, ex.WireLen, ex.Aborted = false, wire, resp.AfterHold
+			o.mu.Unlock()
+			return // the deferred Close cuts the connection
+		}
+	}
+	if okAll && !headSent {
+		okAll = write(head)
 	}
 	if okAll {
 		okAll = emit(body[sent:])
@@ -345,3 +368,10 @@ func SortedPaths(log []Exchange) []string {
 }
 
 var _ = bufio.NewReader
+
+// ReleaseIfSet releases a hold that may be nil.
+func (h *Hold) ReleaseIfSet() {
+	if h != nil {
+		h.Release()
+	}
+}
